@@ -5,6 +5,12 @@ CONSTANTS MaxWraps = 4
           Wide = FALSE
           FixedCode = FALSE
           Modes = {"heap"}
+          MaxExcChain = 1
+          MaxBindings = 1
+          MaxArgSteps = 0
+          MaxDecoObjs = 3
+          MaxDecoCalls = 0
+          TwoDecos = FALSE
 INIT Init
 NEXT Next
 INVARIANT MechRefinesMC
